@@ -91,6 +91,10 @@ EXPLANATION += (
     ' Round 15: sibling helpers with different defaults are called with the parameter bound (R-AGREE/sibling-defaults).'
 )
 
+EXPLANATION += (
+    ' Round 16: every normal return of round_x_to_integers passes through a rounding helper (R-MUST/rounding-performed).'
+)
+
 RULE_TEXT = (
     "one obligation per effect root, per mutating helper call, per "
     "rejection point, per log conditional, per layer argument, per uns "
